@@ -172,37 +172,30 @@ def _reachable(repo, eng, roots):
     return seen
 
 
-def run(repo, rep, tier):
-    rep.rule("R-C07-1", "at every apply_ufunc(dask='parallelized') each argument with core dimensions is a dimension "
-                        "coordinate, or is forced to a single chunk along them (chunk({d: -1}) reaching the call on every "
-                        "path), or the site passes allow_rechunk=True")
-    rep.rule("R-C07-2", "the native routine cannot be interleaved: the wrapper never releases the GIL and specpart.c calls "
-                        "no Python API")
-    rep.rule("R-C07-3", "specpart.partition is reached only through kernels of apply_ufunc sites or direct numpy-level calls "
-                        "(its result array is freshly allocated per call)")
+def core_dim_chunks(repo, rep, rule="R-C07-1"):
     all_sites = sites(repo)
     par = [s for s in all_sites if s.dask == "parallelized"]
     rep.analysed.update({"modules": len(repo.modules), "apply_ufunc_sites": len(all_sites),
                          "parallelized_sites": len(par)})
-    rep.floor("R-C07-1", "apply_ufunc sites with dask='parallelized'", len(par), 10)
+    rep.floor(rule, "apply_ufunc sites with dask='parallelized'", len(par), 10)
     nargs = 0
     for s in all_sites:
         if s.dask is UNKNOWN:
-            raise AnalysisError(f"R-C07-1: dask= option at {s.where} is not a constant")
+            raise AnalysisError(f"{rule}: dask= option at {s.where} is not a constant")
         if s.dask not in ("parallelized",):
             # dask='forbidden'/'allowed': dask input raises / is passed to numpy code -> property broken for dask data
-            rep.fail("R-C07-1", s.fi.file, s.line, s.fi.qualname, unparse(s.call)[:120],
+            rep.fail(rule, s.fi.file, s.line, s.fi.qualname, unparse(s.call)[:120],
                      f"apply_ufunc with dask={s.dask!r}: dask-backed input is rejected or handed to numpy kernels")
             continue
         icd = s.input_core_dims
         if icd is UNKNOWN or not isinstance(icd, list) or len(icd) != len(s.args):
-            raise AnalysisError(f"R-C07-1: input_core_dims at {s.where} not constant or wrong length")
+            raise AnalysisError(f"{rule}: input_core_dims at {s.where} not constant or wrong length")
         for arg, dims in zip(s.args, icd):
             if not dims:
                 continue
             nargs += 1
             if s.allow_rechunk:
-                rep.ok("R-C07-1", s.where, f"arg {unparse(arg)} core dims {dims}", "allow_rechunk=True at the site")
+                rep.ok(rule, s.where, f"arg {unparse(arg)} core dims {dims}", "allow_rechunk=True at the site")
                 continue
             bad = None
             whys = []
@@ -213,12 +206,25 @@ def run(repo, rep, tier):
                     bad = (d, why)
                     break
             if bad:
-                rep.fail("R-C07-1", s.fi.file, s.line, s.fi.qualname,
+                rep.fail(rule, s.fi.file, s.line, s.fi.qualname,
                          f"apply_ufunc arg {unparse(arg)} core_dims={dims}",
                          f"core dimension '{bad[0]}' may span several chunks: {bad[1]}")
             else:
-                rep.ok("R-C07-1", s.where, f"arg {unparse(arg)} core dims {dims}", "; ".join(dict.fromkeys(whys)))
-    rep.floor("R-C07-1", "arguments with core dimensions", nargs, 25)
+                rep.ok(rule, s.where, f"arg {unparse(arg)} core dims {dims}", "; ".join(dict.fromkeys(whys)))
+    rep.floor(rule, "arguments with core dimensions", nargs, 25)
+
+    return all_sites
+
+
+def run(repo, rep, tier):
+    rep.rule("R-C07-1", "at every apply_ufunc(dask='parallelized') each argument with core dimensions is a dimension "
+                        "coordinate, or is forced to a single chunk along them (chunk({d: -1}) reaching the call on every "
+                        "path), or the site passes allow_rechunk=True")
+    rep.rule("R-C07-2", "the native routine cannot be interleaved: the wrapper never releases the GIL and specpart.c calls "
+                        "no Python API")
+    rep.rule("R-C07-3", "specpart.partition is reached only through kernels of apply_ufunc sites or direct numpy-level calls "
+                        "(its result array is freshly allocated per call)")
+    all_sites = core_dim_chunks(repo, rep, "R-C07-1")
 
     # ---- R-C07-4: dask-only metadata agrees with the kernels -------------------------------------------
     rep.rule("R-C07-4", "output_sizes declared for dask (ignored in memory) equals what the kernel returns on every path, so "
@@ -317,6 +323,11 @@ def run(repo, rep, tier):
             if tok in _strip_comments(f.src):
                 rep.fail("R-C07-2", os.path.relpath(f.path, repo.root), 1, "-", tok,
                          "native threads over static work buffers")
+    rep.rule("R-C07-6", "(shared with C04) every kernel hands the native routine a C-contiguous float32 copy of its block: the block a dask "
+                        "task receives can be a strided view (core dimensions are moved to the end by transposition, chunks may be "
+                        "Fortran-ordered), while the routine reads the raw buffer as C-ordered (nk, nth)")
+    from .shared import contiguity
+    contiguity(repo, rep, "R-C07-6")
     rep.trust("xarray.apply_ufunc semantics for dask='parallelized' (core dims must be single-chunk unless allow_rechunk)")
     rep.trust("CPython: a C extension function runs under the GIL unless it releases it")
     rep.trust("clang 14 parser (JSON AST) for the two C files; Python ast for the package")
